@@ -18,7 +18,7 @@ func c12(r *hx.Run) {
 	fx.Quiet()
 	protoClient, v := stdClient()
 	delta := v.P.MaxOperationTimeDelta
-	r.Rule = "intake: every pairing (revealed key k_i, next commitment = commitment of k_j under SHA2-256 or SHA2-512, reveal value under either algorithm) for update and recover, and every pairing (update commitment, recovery commitment) for create and recover, for all five key types, parsed by the real parser: accepted iff the next commitment is not the commitment of the revealed key / the two commitments differ; the same pairings through the client request builders (update, recover, create): a forbidden pairing is not built (or at least never both built and accepted), a permitted one is built. Resolution: every history made of a forward commitment chain of length <=4 (update chain and recovery chain) plus 1 or 2 commitment-closing operations (self loops and cycles of length 2..4) anchored at every position, with and without the legitimate continuation, on the real processor vs ref/sidetree (which never revisits a commitment). Non-trivial: pairings with i=j, histories where a closing operation is a candidate for the commitment in force."
+	r.Rule = "intake: every pairing (revealed key k_i, next commitment = commitment of k_j under SHA2-256 or SHA2-512, reveal value under either algorithm) for update and recover, and every pairing (update commitment, recovery commitment) for create and recover, for all five key types, parsed by the real parser: accepted iff the next commitment is not the commitment of the revealed key / the two commitments differ; the same pairings through the client request builders (update, recover, create): a forbidden pairing is not built (or at least never both built and accepted), a permitted one is built. Resolution: every history made of a forward commitment chain of length <=4 (update chain and recovery chain) plus 1 or 2 commitment-closing operations (self loops and cycles of length 2..4; closing recovers also without their delta member) anchored at every position, with and without the legitimate continuation, on the real processor vs ref/sidetree (which never revisits a commitment). Non-trivial: pairings with i=j, histories where a closing operation is a candidate for the commitment in force."
 	// ---------- intake
 	for _, kt := range fx.KeyTypes {
 		keys := []*fx.Key{fx.NewKey(kt, "c12/k0"), fx.NewKey(kt, "c12/k1"), fx.NewKey(kt, "c12/k2")}
@@ -201,6 +201,10 @@ func c12(r *hx.Run) {
 			s = &fx.OpSpec{Type: "recover", Suffix: suffix, SignKey: rk[i], NextRecov: cr(j), NextUpdate: cu(0), Patches: p, Code: code}
 			addOp(&fx.PoolOp{ID: id, Type: operation.TypeRecover, Req: s.Build(),
 				Abs: sidetree.Op{ParseOK: i != j, Reveals: cr(i), Authorized: true, NextRecovery: cr(j), NextUpdate: cu(0), Delta: "ok", Patches: p}})
+			// the same recover without its delta member: still authorised, still commits to r_j (the document is emptied)
+			sn := &fx.OpSpec{Type: "recover", Suffix: suffix, SignKey: rk[i], NextRecov: cr(j), NextUpdate: cu(0), Patches: p, Code: code, NoDelta: true}
+			addOp(&fx.PoolOp{ID: id + "~n", Type: operation.TypeRecover, Req: sn.Build(),
+				Abs: sidetree.Op{ParseOK: i != j, Reveals: cr(i), Authorized: true, NextRecovery: cr(j), NextUpdate: cu(0), Delta: sidetree.DeltaHashMismatch, Patches: p}})
 		}
 	}
 	for _, chainType := range []string{"U", "R"} {
@@ -233,6 +237,9 @@ func c12(r *hx.Run) {
 				for _, s1 := range slots {
 					p1 := fx.Placed{Op: pool.Get(fmt.Sprintf("%s%d>%d", chainType, c1.i, c1.j)), Time: s1.T, Num: 0, Published: true}
 					jobs = append(jobs, job{[]fx.Placed{p1}})
+					if chainType == "R" { // the closing recover without a delta member
+						jobs = append(jobs, job{[]fx.Placed{{Op: pool.Get(fmt.Sprintf("R%d>%d~n", c1.i, c1.j)), Time: s1.T, Num: 0, Published: true}}})
+					}
 					if length <= 4 || r.Tier == "thorough" {
 						for _, c2 := range cl {
 							for _, s2 := range slots {
